@@ -19,6 +19,7 @@ use std::sync::Mutex;
 pub static PERMUTED_LOADS: AtomicU64 = AtomicU64::new(0);
 pub static POOL_LOADS: AtomicU64 = AtomicU64::new(0);
 pub static SEQ_COMPARISONS: AtomicU64 = AtomicU64::new(0);
+pub static FILTERED_LOADS: AtomicU64 = AtomicU64::new(0);
 
 /// the hook state is process-global: the whole check body is serialised
 static HOOK_LOCK: Mutex<()> = Mutex::new(());
@@ -98,6 +99,23 @@ pub fn check(f: &WFile) -> Verdict {
         return Ok(rep);
     }
     let out = writer::write(&f);
+    check_rendered(rep, &f, &out)
+}
+
+/// an encrypted file with an empty user password: load_mem decrypts it and merges the object streams afterwards
+/// (`Document::decrypt_raw`), a second place where the copies of one object number meet
+pub fn check_encrypted(case: &c07::EncHist) -> Verdict {
+    let mut rep = CaseReport::new();
+    let mut case = case.clone();
+    case.cfg.user_pw = String::new();
+    case.f.xref_stream = true;
+    case.f.objstm = true;
+    let Some(r) = c07::render_encrypted(&case, &mut rep)? else { return Ok(rep) };
+    rep.label("encrypted-empty-user-password");
+    check_rendered(rep, &r.f, &r.out)
+}
+
+fn check_rendered(mut rep: CaseReport, f: &WFile, out: &writer::WOutput) -> Verdict {
     let bytes = &out.bytes;
     let _g = HOOK_LOCK.lock().unwrap_or_else(|e| e.into_inner());
     #[cfg(lopdf_verif)]
@@ -132,6 +150,39 @@ pub fn check(f: &WFile) -> Verdict {
             }
         }
         lopdf::verif_hooks::set_merge_order(None);
+    }
+    // (1b) the filtering loader (path based) with a filter that keeps everything: same document, under every merge order
+    {
+        fn keep_all(id: (u32, u16), o: &mut lopdf::Object) -> Option<((u32, u16), lopdf::Object)> {
+            Some((id, o.clone()))
+        }
+        static TMP_SEQ: AtomicU64 = AtomicU64::new(0);
+        let path = std::env::temp_dir().join(format!("lv-c08-{}-{}.pdf", std::process::id(), TMP_SEQ.fetch_add(1, Ordering::Relaxed)));
+        if std::fs::write(&path, bytes).is_ok() {
+            let digest_filtered = |_: ()| match std::panic::catch_unwind(|| Document::load_filtered(&path, keep_all)) {
+                Ok(Ok(d)) => format!("ok {:016x} objects={} max_id={}", canon::digest(&d), d.objects.len(), d.max_id),
+                Ok(Err(e)) => format!("err {:?}", e).replace('\n', " "),
+                Err(_) => "panic".to_string(),
+            };
+            let mut orders: Vec<Option<usize>> = vec![None];
+            #[cfg(lopdf_verif)]
+            orders.extend((0..factorial(blocks.min(4))).map(Some));
+            for k in orders {
+                #[cfg(lopdf_verif)]
+                lopdf::verif_hooks::set_merge_order(k);
+                let d = digest_filtered(());
+                FILTERED_LOADS.fetch_add(1, Ordering::Relaxed);
+                if d != reference {
+                    #[cfg(lopdf_verif)]
+                    lopdf::verif_hooks::set_merge_order(None);
+                    let _ = std::fs::remove_file(&path);
+                    return Err(viol!("filtered-load-differs", "load_filtered with a keep-everything filter (merge order {:?}) gives {} but load_mem gives {}\nfeatures {:?}\n{}", k, d, reference, out.features, show_bytes(bytes, 4000)));
+                }
+            }
+            #[cfg(lopdf_verif)]
+            lopdf::verif_hooks::set_merge_order(None);
+            let _ = std::fs::remove_file(&path);
+        }
     }
     // (2) thread pools of different sizes, repeated
     #[cfg(feature = "par")]
@@ -206,7 +257,7 @@ pub fn opts(run: &Run) -> WOpts {
 }
 
 pub fn run(run: &mut Run) {
-    run.rule = "cases: REF-W files with cross-reference streams and object streams (up to ~10 containers over 1..3 revisions, object numbers redefined in later containers, zero-length streams, indirect lengths incl. lengths stored in object streams). Schedules: (1) hook H1 delivers the per-container blocks to the final merge in EVERY order (n! orders, n <= 6; exhaustive in the merge-order dimension), (2) loads inside rayon pools of 1,2,3,4,8,16 threads, repeated, (3) the no-default-features (sequential) build on the same bytes. Oracle: identical digest of (objects, trailer, max_id, version). In the seq configuration only (1) runs. Second campaign: the same files plus constructs outside the strict grammar that a lenient loader accepts (an object number named by no cross-reference entry present in two object streams; a number listed twice in one object stream). non-trivial = (>= 2 containers and >= 1 object number present in >= 2 containers) or one of those constructs present; distinct by case hash.".into();
+    run.rule = "cases: REF-W files with cross-reference streams and object streams (up to ~10 containers over 1..3 revisions, object numbers redefined in later containers, zero-length streams, indirect lengths incl. lengths stored in object streams). Schedules: (1) hook H1 delivers the per-container blocks to the final merge in EVERY order (n! orders, n <= 6; exhaustive in the merge-order dimension), (1b) Document::load_filtered with a keep-everything filter under the merge orders (n <= 4), (2) loads inside rayon pools of 1,2,3,4,8,16 threads, repeated, (3) the no-default-features (sequential) build on the same bytes. Oracle: identical digest of (objects, trailer, max_id, version). In the seq configuration only (1) runs. Second campaign: the same files plus constructs outside the strict grammar that a lenient loader accepts (an object number named by no cross-reference entry present in two object streams; a number listed twice in one object stream). Third campaign: the same files encrypted by the reference handler with an empty user password, which load_mem decrypts and whose object streams Document::decrypt_raw merges. non-trivial = (>= 2 containers and >= 1 object number present in >= 2 containers) or one of those constructs present; distinct by case hash.".into();
     run.assumptions = vec![
         "hook H1 permutes whole blocks exactly as thread completion could order them (each block is appended under the mutex atomically)".into(),
         "interleavings inside rayon's collect are sampled by repetition only; no data race is possible (forbid(unsafe_code), Mutex)".into(),
@@ -223,8 +274,15 @@ pub fn run(run: &mut Run) {
         f
     });
     run.campaign("schedules-lenient-files", quirky, n, check, |_c, _v| None);
+    // encrypted files that load_mem opens with the empty user password: the object streams are merged after decryption
+    let enc = move || (wfile_strategy(o), super::cryptgen::config_strategy(), any::<u64>(), 0u8..4).prop_map(|(mut f, cfg, seed, q)| {
+        f.quirks = q;
+        c07::EncHist { f, cfg, seed }
+    });
+    run.campaign("schedules-encrypted-files", enc, n, check_encrypted, |_c, _v| None);
     run.extra.insert("permuted_loads".into(), serde_json::json!(PERMUTED_LOADS.load(Ordering::Relaxed)));
     run.extra.insert("pool_loads".into(), serde_json::json!(POOL_LOADS.load(Ordering::Relaxed)));
+    run.extra.insert("filtered_loads".into(), serde_json::json!(FILTERED_LOADS.load(Ordering::Relaxed)));
     run.extra.insert("sequential_build_comparisons".into(), serde_json::json!(SEQ_COMPARISONS.load(Ordering::Relaxed)));
     if let Some(c) = run.campaigns.last_mut() {
         c.note = "per file: all n! block orders (exhaustive in that dimension), 6 pool sizes x repetitions, sequential build".into();
@@ -232,5 +290,8 @@ pub fn run(run: &mut Run) {
 }
 
 pub fn replay(file: &Value) -> Result<Verdict, String> {
+    if file.get("campaign").and_then(|c| c.as_str()) == Some("schedules-encrypted-files") {
+        return Ok(check_encrypted(&replay_case::<c07::EncHist>(file)?));
+    }
     Ok(check(&replay_case::<WFile>(file)?))
 }
